@@ -41,7 +41,17 @@ impl Project {
     let y = self.yaml();
     let r = catch_unwind(AssertUnwindSafe(|| {
       let core: SerializableRuleCore = from_str(&y).map_err(|e| format!("yaml: {e}"))?;
-      core.get_matcher(DeserializeEnv::new(lang)).map_err(|e| format!("load: {e}"))
+      // every LOCAL utility gets a GLOBAL decoy of the same id that accepts every node: a local utility shadows a
+      // global one, so `matches: id` must keep standing for the local rule (the model knows only the local ones)
+      let mut env = DeserializeEnv::new(lang);
+      if !self.utils.is_empty() {
+        let decoys: Vec<_> = self.utils.iter()
+          .filter_map(|(id, _)| from_str(&format!("id: {id}\nlanguage: {lang}\nrule:\n  regex: '^'\n")).ok()).collect();
+        if let Ok(g) = DeserializeEnv::<SupportLang>::parse_global_utils(decoys) {
+          env = env.with_globals(&g);
+        }
+      }
+      core.get_matcher(env).map_err(|e| format!("load: {e}"))
     }));
     match r {
       Ok(x) => x,
